@@ -67,6 +67,22 @@ func (v ValueSpec) Build() []byte {
 		}
 	}
 	switch v.Class {
+	case "farrepeat":
+		// a block (text followed by a stretch of random bytes) repeated at an exact distance:
+		// the random stretch of every repetition can only be matched one period back, so the
+		// compressor has to encode a match at exactly that distance (window / offset-field limits)
+		p := FarRepeatPeriod(v.Seed, n)
+		start := len(out)
+		fill("text", start+p-p/8)
+		fill("random", start+p)
+		for len(out) < n {
+			m := len(out) - p
+			k := n - len(out)
+			if k > p {
+				k = p
+			}
+			out = append(out, out[m:m+k]...)
+		}
 	case "headtail": // compressible head, incompressible tail
 		fill("text", n/2)
 		fill("random", n)
@@ -82,6 +98,32 @@ func (v ValueSpec) Build() []byte {
 		out = out[:n]
 	}
 	return out
+}
+
+// FarRepeatDistances are the repeat distances the "farrepeat" class aims at.
+var FarRepeatDistances = []int{255, 256, 4095, 4096, 4097, 8191, 8192, 65534, 65535, 65536, 65537, 131070, 131071, 131072, 131073, 262143, 262144, 262145}
+
+// FarRepeatPeriod returns the period used by class "farrepeat" for a value of n bytes:
+// one of the boundary distances that fits twice into n (chosen by the seed), else n/2.
+func FarRepeatPeriod(seed uint64, n int) int {
+	var fit []int
+	for _, d := range FarRepeatDistances {
+		if 2*d <= n {
+			fit = append(fit, d)
+		}
+	}
+	if len(fit) == 0 || seed%5 == 0 {
+		if n < 4 {
+			return 1
+		}
+		return n/2 - int(seed>>8%3) // also distances that are no power of two
+	}
+	// prefer the largest distances that fit
+	k := len(fit)
+	if k > 4 {
+		fit = fit[k-4:]
+	}
+	return fit[int(seed>>8)%len(fit)]
 }
 
 func maxInt(a, b int) int {
